@@ -1,0 +1,46 @@
+// SPDX-FileCopyrightText: 2026 The Pion community <https://pion.ly>
+// SPDX-License-Identifier: MIT
+
+//go:build verif
+
+package dtlshandshake
+
+import (
+	"sync"
+
+	dtlsflight "github.com/pion/dtls/v3/internal/flight"
+	dtlsstate "github.com/pion/dtls/v3/internal/state"
+)
+
+// VerifFlightEditor lets the verification harness (build tag verif) turn an endpoint into a "rogue but
+// cryptographically competent" peer: it may edit a freshly generated flight before it is stamped,
+// cached and sent. It receives the endpoint's state, the flight name and the generated packets.
+type VerifFlightEditor func(state dtlsstate.Active, flight string, pkts []*dtlsflight.Packet) []*dtlsflight.Packet
+
+var (
+	verifEditorsMu sync.Mutex                                    //nolint:gochecknoglobals
+	verifEditors   = map[*dtlsstate.Common]VerifFlightEditor{} //nolint:gochecknoglobals
+)
+
+// VerifSetFlightEditor installs (or, with nil, removes) the editor for the endpoint owning common.
+func VerifSetFlightEditor(common *dtlsstate.Common, editor VerifFlightEditor) {
+	verifEditorsMu.Lock()
+	defer verifEditorsMu.Unlock()
+	if editor == nil {
+		delete(verifEditors, common)
+
+		return
+	}
+	verifEditors[common] = editor
+}
+
+func verifEditFlight(state dtlsstate.Active, flight string, pkts []*dtlsflight.Packet) []*dtlsflight.Packet {
+	verifEditorsMu.Lock()
+	editor := verifEditors[dtlsstate.CommonState(state)]
+	verifEditorsMu.Unlock()
+	if editor == nil {
+		return pkts
+	}
+
+	return editor(state, flight, pkts)
+}
